@@ -58,12 +58,14 @@ BigType(ix, nf, t) == [name |-> "Big", record |-> FALSE, cases |-> BigCases(0, i
 AllFeatures == {"metadata", "input_redeemer", "mint", "mint_redeemer", "burn_same", "burn_other_asset", "burn_all",
                 "optional_empty", "optional_full", "reference", "reference_twice", "collateral", "signers", "signers_dup", "signers_apart",
                 "datum", "second_input", "validity",
-                "donation", "plutus_witness", "plutus_witness_v2", "native_witness", "publish_script", "vote_deleg", "witness_more"}
+                "donation", "plutus_witness", "plutus_witness_v2", "native_witness", "publish_script", "vote_deleg", "witness_more",
+                "input_many", "collateral_two"}
 
 \* the block-presence lattice: every subset of the core features, and every subset of the chain-specific ones
 \* inside a few core contexts (the two families multiply otherwise)
-ChainFeatures == {"donation", "plutus_witness", "plutus_witness_v2", "native_witness", "publish_script", "vote_deleg", "witness_more"}
-CoreContexts == {{}, {"mint", "mint_redeemer", "collateral"}, {"input_redeemer", "metadata", "signers"}, {"mint", "mint_redeemer", "burn_all", "datum"}}
+ChainFeatures == {"donation", "plutus_witness", "plutus_witness_v2", "native_witness", "publish_script", "vote_deleg", "witness_more",
+                  "input_many", "collateral_two"}
+CoreContexts == {{"collateral"}, {"mint", "mint_redeemer", "collateral"}, {"input_redeemer", "metadata", "signers"}, {"mint", "mint_redeemer", "burn_all", "datum"}}
 C10Lattice == (SUBSET (Features \ ChainFeatures))
               \cup {a \cup b : a \in {x \cap Features : x \in CoreContexts}, b \in SUBSET (Features \cap ChainFeatures)}
 
@@ -130,7 +132,8 @@ C09Prog(x, envId) ==
 C10Prog(fs) ==
     LET has(f) == f \in fs
         T1 == TokE(Lit(3))
-        inputs == <<[BaseInput EXCEPT !.min_amount = AdaE(Lit(1)), !.redeemer = IF has("input_redeemer") THEN RedOf(1) ELSE Absent]>>
+        inputs == <<[BaseInput EXCEPT !.min_amount = AdaE(Lit(1)), !.redeemer = IF has("input_redeemer") THEN RedOf(1) ELSE Absent,
+                                      !.many = has("input_many")]>>
                   \o (IF has("second_input") THEN <<Inp("other", FALSE, Sender, AdaE(Lit(1)), Absent, Absent, "Rec")>> ELSE <<>>)
         outs == (IF has("optional_empty") THEN <<Out("maybe", TRUE, Sender, Op("sub", AdaE(PN), AdaE(PN)), Absent)>> ELSE <<>>)
                 \o (IF has("optional_full") THEN <<Out("maybe2", TRUE, Sender, AdaE(Lit(1500000)), Absent)>> ELSE <<>>)
@@ -163,7 +166,14 @@ C10Prog(fs) ==
                              \o (IF has("vote_deleg") THEN <<VoteDeleg(Hex(DRepHash), Hex(StakeKeyAddr)), VoteDeleg(Hex(DRepHash), Hex(StakeKeyAddr))>> ELSE <<>>)]
         base == EnvOf(1)
     IN  [prog |-> [decls |-> Decls, tx |-> tx],
-         env |-> [base EXCEPT !.utxos = [source |-> base.utxos.source, collateral |-> base.utxos.collateral,
+         \* several UTxOs bound to one block (a multi-UTxO input, a collateral of two): sets whose order must not show in the bytes
+         env |-> [base EXCEPT !.utxos = [source |-> IF has("input_many")
+                                                    THEN base.utxos.source \o <<Utxo(9, 1, 81, 6000000, 0, RecDatum), Utxo(4, 2, 81, 7000000, 0, RecDatum),
+                                                                                 Utxo(250, 0, 81, 8000000, 0, RecDatum)>>
+                                                    ELSE base.utxos.source,
+                                         collateral |-> IF has("collateral_two")
+                                                        THEN base.utxos.collateral \o <<Utxo(5, 0, 81, 9000000, 0, None), Utxo(3, 3, 81, 9000000, 0, None)>>
+                                                        ELSE base.utxos.collateral,
                                          other |-> <<Utxo(3, 2, 81, 7000000, 0, RecDatum)>>]]]
 
 Init == c \in (IF Mode = "c08" THEN C08Cases
